@@ -1,0 +1,42 @@
+//go:build verif
+
+package domains
+
+// Contracts for the deductive verifier in /verif (comment-only file; see /verif/DESIGN.md).
+
+//@ type withDomain invariant self.cause != nil
+//@ method (*withDomain).Error
+//@   props C10
+//@   ensures result == msg(self.cause)
+//@ method (*withDomain).Cause
+//@   props C07 C10 C14
+//@   ensures result == self.cause
+//@ method (*withDomain).Unwrap
+//@   props C07 C10 C14
+//@   ensures result == self.cause
+
+//@ spec func domainOf(e error) Domain
+//@ unfold domainOf(e) = typeis(e, *withDomain) ? e.(*withDomain).domain : (cause1(e) != nil ? domainOf(cause1(e)) : NoDomain)
+
+//@ method (*withDomain).ErrorKeyMarker
+//@   props C02 C08 C11
+//@   ensures result == self.domain
+//@ method (*withDomain).SafeDetails
+//@   props C03 C11 C12
+//@   ensures len(result) == 1 && result[0] == self.domain
+
+//@ func WithDomain
+//@   props C10 C07 C12
+//@   ensures err == nil ==> result == nil
+//@   ensures err != nil ==> typeis(result, *withDomain) && result.(*withDomain).cause == err && result.(*withDomain).domain == domain
+
+//@ func decodeWithDomain
+//@   props C05 C01 C11
+//@   requires cause != nil
+//@   ensures len(details) == 0 ==> result == nil
+//@   ensures len(details) > 0 ==> typeis(result, *withDomain) && result.(*withDomain).cause == cause && result.(*withDomain).domain == details[0]
+
+//@ func GetDomain
+//@   props C07 C11 C15
+//@   ensures result == domainOf(err)
+//@   loop 1: invariant domainOf(err) == domainOf(old(err))
